@@ -128,7 +128,7 @@ func c12FileBeforeReopen(work string, kind uint64, o wOpts, roots []cid.Cid, put
 	return []byte(res[2].(VB)), true
 }
 
-// c12RunMismatchImpl: (taccepted changed) | (trejected changed) | (topenerr)
+// c12RunMismatchImpl: (taccepted changed) | (trejected errclass refusal changed) | (topenerr)
 func c12RunMismatchImpl(work string, kind uint64, o wOpts, roots []cid.Cid, puts []Blk, cut string, o2 wOpts, roots2 []cid.Cid) Val {
 	ops := VL{}
 	for _, b := range puts {
@@ -137,7 +137,15 @@ func c12RunMismatchImpl(work string, kind uint64, o wOpts, roots []cid.Cid, puts
 	ops = append(ops, crCutOps(kind, cut)...)
 	at := len(ops)
 	ops = append(ops, VL{VT("reopen"), o2.val(), crRootsVal(roots2)})
-	res := runStoreImpl(work, kind, o, roots, nil, ops).(VL)
+	// the file as it was when the reopen started (runStoreImplX hands the session to the observer
+	// before it updates prev)
+	var before []byte
+	x := &storeExtra{afterStep2: func(s *storeSession, tag string, out Val, changed bool) {
+		if tag == "reopen" {
+			before = append([]byte(nil), s.prev...)
+		}
+	}}
+	res := runStoreImplX(work, kind, o, roots, nil, ops, x).(VL)
 	if !crIsNilOut(res[0]) {
 		return VL{VT("openerr")}
 	}
@@ -146,7 +154,62 @@ func c12RunMismatchImpl(work string, kind uint64, o wOpts, roots []cid.Cid, puts
 	if crIsNilOut(out) {
 		return VL{VT("accepted"), step[1]}
 	}
-	return VL{VT("rejected"), step[1]} // the error class is not part of the property
+	// error class as errclass.go maps it (the model: Val.v_err), then WHICH refusal
+	return VL{VT("rejected"), out[1], VT(c12Refusal(work, kind, o2, roots2, before)), step[1]}
+}
+
+// c12Refusal reopens a copy of file with the library and names the error site of
+// store.ResumableVersion / store.Resume that refused it (the model: Crash.refusal,
+// RunCrash.refusal_name).  An error that is none of Resume's own messages comes either from the
+// ReadVersion call of ResumableVersion ("first-header": ReadVersion on the same bytes under the
+// same options fails too) or from a later stage ("later": the un-finalize writes, the scan).
+func c12Refusal(work string, kind uint64, o2 wOpts, roots2 []cid.Cid, file []byte) string {
+	dir, err := os.MkdirTemp(work, "rf")
+	if err != nil {
+		panic(err)
+	}
+	defer os.RemoveAll(dir)
+	path := filepath.Join(dir, "a.car")
+	if err := os.WriteFile(path, file, 0o644); err != nil {
+		panic(err)
+	}
+	if kind == 0 {
+		if len(file) == 0 {
+			return "open-new"
+		}
+		bs, e := blockstore.OpenReadWrite(path, roots2, o2.v2()...)
+		if e == nil {
+			bs.Discard()
+		}
+		err = e
+	} else {
+		f, ferr := os.OpenFile(path, os.O_RDWR, 0o666)
+		if ferr != nil {
+			panic(ferr)
+		}
+		defer f.Close()
+		_, err = storage.OpenReadableWritable(f, roots2, o2.v2()...)
+	}
+	if err == nil {
+		return "accepted" // the first reopen refused, this one did not: never equals a model answer
+	}
+	msg := err.Error()
+	switch {
+	case strings.Contains(msg, "cannot resume on CAR file with version"):
+		return "version"
+	case strings.Contains(msg, "without the ability to truncate"):
+		return "no-truncate"
+	case strings.Contains(msg, "mismatched CARv1 offset"):
+		return "data-offset"
+	case strings.Contains(msg, "error reading car header"):
+		return "data-header"
+	case strings.Contains(msg, "mismatching data header"):
+		return "mismatch"
+	}
+	if _, verr := carv2.ReadVersion(bytes.NewReader(file), o2.v2()...); verr != nil {
+		return "first-header"
+	}
+	return "later"
 }
 
 func crBlksFromVal(v Val) []Blk {
